@@ -5,6 +5,9 @@ import BarterModel.Model.SysHandle
 Line-protocol driver for the sub-check C20S (System handle + SystemBuilder wiring).
 
   `sys <iter|stream|dflt> <on|off|dflt> <on|off|dflt> <k> <x2> <quote> <base> <latency ms>`
+  `sysb <calls|-> <k> <x2> <quote> <base> <latency ms>`  (configuration shape: the builder calls
+     `f=iter|f=stream|a=on|a=off|t=on|t=off`, comma separated, in ANY order, setters repeated; x2 = 2: the
+     exchange without execution link sorts BEFORE the mocked one - for the model the same as x2 = 1)
   `mkt i:p[:S:q] ...` | `mktre`
   `call open <req>..` | `call cancel <req>..` | `call close <filter>` | `call cancel_orders <filter>`
      | `call trading on|off`
@@ -189,20 +192,56 @@ def finalBlock (st : St) (s : CSys) (how : String) (eng : Eng CEng) (audit : Tic
    obsEng false eng.state.eng ++
    [ "own " ++ fmtBool ownOk ] ++ auditLines)
 
+/-- one builder call of the configuration-shape line `sysb` -/
+inductive BCall where
+  | feed (m : EngineFeedMode)
+  | audit (on : Bool)
+  | trading (on : Bool)
+
+def parseBCall? : String → Option BCall
+  | "f=iter" => some (.feed .iterator)
+  | "f=stream" => some (.feed .stream)
+  | "a=on" => some (.audit true)
+  | "a=off" => some (.audit false)
+  | "t=on" => some (.trading true)
+  | "t=off" => some (.trading false)
+  | _ => none
+
+/-- `-` = no call at all, else a comma-separated list of calls (any order, setters repeated) -/
+def parseBCalls? (s : String) : Option (List BCall) :=
+  if s == "-" then some [] else (s.splitOn ",").mapM parseBCall?
+
+def applyBCall (b : SystemBuilder) : BCall → SystemBuilder
+  | .feed m => b.engine_feed_mode m
+  | .audit on => b.audit_mode (if on then .enabled else .disabled)
+  | .trading on => b.trading_state on
+
+/-- `sys` and `sysb` differ only in how the builder calls are written down -/
+def normSys : List String → Option (List BCall × String × String × String × String × String)
+  | ["sys", feed, audit, trading, k, x2, quote, base, lat] =>
+    match parseMode? feed, parseOnOff? audit, parseOnOff? trading with
+    | some feed, some audit, some trading =>
+      some ((match feed with | some m => [BCall.feed m] | none => []) ++
+            (match audit with | some on => [BCall.audit on] | none => []) ++
+            (match trading with | some on => [BCall.trading on] | none => []), k, x2, quote, base, lat)
+    | _, _, _ => none
+  | ["sysb", calls, k, x2, quote, base, lat] => (parseBCalls? calls).map fun cs => (cs, k, x2, quote, base, lat)
+  | _ => none
+
 def model : Drv St where
   init := St.init
   step st toks :=
     match toks with
-    | ["sys", feed, audit, trading, k, x2, quote, base, lat] =>
-      match parseMode? feed, parseOnOff? audit, parseOnOff? trading, k.toNat?, parseRat? quote, parseRat? base, lat.toNat? with
-      | some feed, some audit, some trading, some k, some quote, some base, some lat =>
-        if x2 != "0" && x2 != "1" then (st, ["bad-op"]) else
-        let x2 := x2 == "1"
-        let b0 := SystemBuilder.new
-        let b1 := match feed with | some m => b0.engine_feed_mode m | none => b0
-        let b2 := match audit with
-          | some on => b1.audit_mode (if on then .enabled else .disabled) | none => b1
-        let b3 := match trading with | some on => b2.trading_state on | none => b2
+    | "sys" :: _ | "sysb" :: _ =>
+      match normSys toks with
+      | none => (st, ["bad-op"])
+      | some (calls, k, x2, quote, base, lat) =>
+      match k.toNat?, parseRat? quote, parseRat? base, lat.toNat? with
+      | some k, some quote, some base, some lat =>
+        -- x2 = 2: the exchange without execution link sorts before the mocked one (index shape only)
+        if x2 != "0" && x2 != "1" && x2 != "2" then (st, ["bad-op"]) else
+        let x2 := x2 != "0"
+        let b3 := calls.foldl applyBCall SystemBuilder.new
         let build := b3.build (cMkEngine k x2)
         let exch : CExch := { k := k, quote := quote, base := List.replicate k base }
         let s : CSys := build.init exch [.snapshot quote (List.replicate k base)]
@@ -212,7 +251,7 @@ def model : Drv St where
              " audit=" ++ (if build.auditMode == .enabled then "on" else "off") ++
              " trading=" ++ (if build.engine.eng.enabled then "on" else "off") ++ " seq=0",
            "audit_present " ++ fmtBool s.auditHeld ])
-      | _, _, _, _, _, _, _ => (st, ["bad-op"])
+      | _, _, _, _ => (st, ["bad-op"])
     | _ =>
       match st.sys with
       | none => (st, ["bad-op"])
@@ -321,13 +360,18 @@ def spec : Drv SpecSt where
   init := SpecSt.init
   step s toks :=
     match toks with
-    | ["sys", feed, audit, trading, k, _, _, _, _] =>
-      match parseMode? feed, parseOnOff? audit, parseOnOff? trading, k.toNat? with
-      | some feed, some audit, some trading, some k =>
+    | "sys" :: _ | "sysb" :: _ =>
+      match normSys toks with
+      | none => (s, ["bad-op"])
+      | some (calls, k, x2, quote, base, lat) =>
+      match k.toNat?, parseRat? quote, parseRat? base, lat.toNat? with
+      | some k, some _, some _, some _ =>
+        if x2 != "0" && x2 != "1" && x2 != "2" then (s, ["bad-op"]) else
+        -- documented: the LAST call of a setter counts, whatever was called before, between or after;
         -- documented defaults: Iterator, audit Disabled, trading Disabled
-        let feedM := feed.getD .iterator
-        let auditOn := audit.getD false
-        let tradingOn := trading.getD tradingDefault
+        let feedM := (calls.reverse.findSome? fun | .feed m => some m | _ => none).getD .iterator
+        let auditOn := (calls.reverse.findSome? fun | .audit on => some on | _ => none).getD false
+        let tradingOn := (calls.reverse.findSome? fun | .trading on => some on | _ => none).getD tradingDefault
         ({ SpecSt.init with active := true, audit := auditOn, trading0 := tradingOn, k := k },
          [ "built feed=" ++ (if feedM == .iterator then "iter" else "stream") ++
              " audit=" ++ (if auditOn then "on" else "off") ++
